@@ -340,6 +340,9 @@ def failK {γ : Type} (c : γ) (lift : Fault → γ) : Fault → γ
   | .fuel => lift .fuel
   | _ => c
 
+theorem failK_panic_of {γ : Type} {c : γ} {lift : Fault → γ} {e : Fault} (h : ∃ w, e = .panic w) : failK c lift e = lift e := by
+  obtain ⟨w, rfl⟩ := h; rfl
+
 theorem tryC_expE {α β : Type} (d : α) (emb : β → α) (r : Res β) (kT kF : α × Bool → Ctl σ ρ) :
     (tryC (expE d emb r) fun t => if t.2 = true then kT t else kF t) =
       match r with
@@ -1104,6 +1107,59 @@ theorem iterL_mag (F : GF.GF) (omega locs : List Nat) (D : ρ) : ∀ (rest pre :
       cases magLoop F omega locs rest (pre.length + 1) with
       | error e => cases e <;> rfl
       | ok ms => simp
+
+/-! ### Chien search (`findErrorLocations`) on model states -/
+
+/-- one candidate of the Chien search (state: locations found so far, candidate `i`) -/
+def chienStep (F : GF.GF) (sigma : Poly) (ne : Nat) (D : ρ) (st : List Nat × Nat) : Ctl (List Nat × Nat) ρ :=
+  if st.2 < F.size ∧ st.1.length < ne then
+    match evaluateAt F sigma st.2 with
+    | .error e => .panic e
+    | .ok v =>
+      if v = 0 then
+        match F.inv st.2 with
+        | .ok x => .next (st.1 ++ [x], st.2 + 1)
+        | .error e => failK (.ret D) Ctl.panic e
+      else .next (st.1, st.2 + 1)
+  else .brk st
+
+theorem chien_run (F : GF.GF) (sigma : Poly) (ne : Nat) (D : ρ) : ∀ (n i : Nat) (acc : List Nat) (fuel : Nat),
+    i + n = F.size → n + 1 ≤ fuel →
+    match chien F sigma ne (List.range' i n) acc with
+    | .ok found => ∃ i', whileLoop (chienStep F sigma ne D) fuel (acc, i) = .brk (found, i')
+    | .error e => whileLoop (chienStep F sigma ne D) fuel (acc, i) = failK (.ret D) Ctl.panic e := by
+  intro n
+  induction n with
+  | zero =>
+    intro i acc fuel hi hf
+    obtain ⟨fuel, rfl⟩ : ∃ k, fuel = k + 1 := ⟨fuel - 1, by omega⟩
+    simp only [List.range'_zero, chien]
+    refine ⟨i, ?_⟩
+    rw [whileLoop_succ]
+    simp only [chienStep]
+    rw [if_neg (by omega)]
+  | succ n ih =>
+    intro i acc fuel hi hf
+    obtain ⟨fuel, rfl⟩ : ∃ k, fuel = k + 1 := ⟨fuel - 1, by omega⟩
+    simp only [List.range'_succ, chien]
+    rw [whileLoop_succ]
+    simp only [chienStep]
+    by_cases hfull : acc.length ≥ ne
+    · rw [if_pos hfull, if_neg (by omega)]
+      exact ⟨i, rfl⟩
+    · rw [if_neg hfull, if_pos (by omega)]
+      simp only [bind, Except.bind]
+      cases hev : evaluateAt F sigma i with
+      | error e => simp only []; rw [failK_panic_of (evaluateAt_error hev)]
+      | ok v =>
+        simp only []
+        by_cases hv : v = 0
+        · simp only [hv, if_true]
+          cases hinv : F.inv i with
+          | error e => cases e <;> rfl
+          | ok x => exact ih (i + 1) (acc ++ [x]) fuel (by omega) (by omega)
+        · simp only [hv, if_false]
+          exact ih (i + 1) acc fuel (by omega) (by omega)
 
 theorem while_map' (R : τ → σ) (f : τ → Ctl τ ρ) (t : τ) {body : σ → Ctl σ ρ} {s : σ} {n : Nat}
     (hs : s = R t) (hb : ∀ t, body (R t) = mapS R (f t)) :
